@@ -485,8 +485,9 @@ pub fn sql_session(
                         Err(e) => Err(e.to_string().lines().next().unwrap_or("").to_string()),
                     });
                 }
-                // no shutdown at the end (it waits for the 1 s compactor tick): dropping the runtime
-                // stops the background tasks, and the scratch directory is removed
+                // no shutdown at the end (it waits for the 1 s compactor tick): dropping the
+                // runtime stops the background tasks, and the scratch directory is
+                // removed
                 drop(db);
                 Ok(out)
             })
